@@ -41,11 +41,13 @@ RUNS = {
     "t_match_other": ('UNION {MatchIn(k, MFlagsAll(0) \\cup MBits(BitsT) \\cup MTypes(0) \\cup MVals(0), "t") : '
                       'k \\in MatchKinds \\ {"flow_mod"}}', "AroundOne"),
     "t_long": ("Longest(0)", "AroundOne"),
-    "t_hist": ('UNION {Histories(k, b, NwStepsT("nw_src") \\cup NwStepsT("nw_dst") \\cup FieldStepsT, 2, "pre") : '
-               'k \\in {"match", "flow_mod", "srep_flow"}, b \\in {ExactTCP, IPOnly, ARP}} \\cup '
+    "t_hist": ('UNION {Histories("match", b, NwStepsT("nw_src") \\cup NwStepsT("nw_dst") \\cup FieldSteps, 2, "pre") : '
+               'b \\in {ExactTCP, IPOnly}} \\cup '
                'Histories("match", ExactTCP, NwSteps("nw_src") \\cup NwSteps("nw_dst"), 3, "pre") \\cup '
-               'UNION {PrePost(k, ExactTCP, NwStepsT("nw_src") \\cup NwStepsT("nw_dst") \\cup FieldStepsT) : k \\in DOMAIN MatchPos}',
-               "AroundOne"),
+               'Histories("match", ARP, NwSteps("nw_src") \\cup FieldStepsT, 2, "pre")', "AroundOne"),
+    "t_hist2": ('UNION {Histories(k, ExactTCP, NwSteps("nw_src") \\cup NwSteps("nw_dst") \\cup FieldSteps, 2, "pre") : '
+                'k \\in {"flow_mod", "srep_flow"}} \\cup '
+                'UNION {PrePost(k, ExactTCP, NwSteps("nw_src") \\cup FieldSteps) : k \\in DOMAIN MatchPos}', "AroundOne"),
     "t_recv": ("{}", "AroundBoth", "Received({32, 33, 40, 62, 63})"),
     "t_nx": ("NXPairs(TopKindsNX) \\cup NXShapes(0..9) \\cup NXEntriesT(0)", "AroundOne"),
 }
